@@ -18,7 +18,7 @@ def objname(parts):
     return out
 
 def E(ev, **kw):
-    base = {"ev": ev, "name": "", "q": "", "clause": "", "kind": "", "alias": "", "cols": [], "n": 0, "flag": False, "tabs": [], "expect": [], "has_expect": False, "ordered": True}
+    base = {"ev": ev, "name": "", "q": "", "clause": "", "kind": "", "alias": "", "cols": [], "n": 0, "flag": False, "tabs": [], "expect": [], "has_expect": False, "ordered": True, "expect_takes": [], "has_takes": False}
     base.update(kw)
     return base
 
@@ -262,6 +262,29 @@ class Walker:
                     self.feat("limit-by")
             else:
                 self.feat("limit-comma")
+        # row-position selection of this query: LIMIT / OFFSET / FETCH / TOP as written (digits), number of ORDER BY keys
+        def num(e):
+            if e is None:
+                return ""
+            if isinstance(e, dict) and "Value" in e:
+                v = e["Value"].get("value", {})
+                return v["Number"][0] if isinstance(v, dict) and "Number" in v else "?"
+            if isinstance(e, dict) and "UnaryOp" in e and e["UnaryOp"].get("op") == "Minus":
+                return "-" + num(e["UnaryOp"].get("expr"))
+            return "?"
+        lim = off = ""
+        if lc and "LimitOffset" in lc:
+            lim = num(lc["LimitOffset"].get("limit")); off = num((lc["LimitOffset"].get("offset") or {}).get("value"))
+        if q.get("fetch"):
+            lim = num(q["fetch"].get("quantity"))
+        body = q.get("body", {})
+        if isinstance(body, dict) and "Select" in body and body["Select"].get("top"):
+            tq = body["Select"]["top"].get("quantity")
+            lim = num(tq.get("Expr") if isinstance(tq, dict) and "Expr" in tq else (tq.get("Constant") if isinstance(tq, dict) else None)) if tq else "?"
+            if isinstance(tq, dict) and "Constant" in tq:
+                lim = str(tq["Constant"])
+        if lim or off:
+            self.ev.append(E("Take", name=lim, q=off if off not in ("0",) else "", n=len(order or [])))
         if q.get("fetch"):
             self.feat("fetch")
             if lc is None or (lc.get("LimitOffset", {}).get("offset") is None):
@@ -290,6 +313,8 @@ def walk(rec):
     sch = rec.get("schema") or {}
     if rec.get("expect") is not None:
         ev[0]["expect"] = list(rec["expect"]); ev[0]["has_expect"] = True; ev[0]["ordered"] = bool(rec.get("ordered", True))
+    if rec.get("expect_takes") is not None:
+        ev[0]["expect_takes"] = [list(x) for x in rec["expect_takes"]]; ev[0]["has_takes"] = True
     names = []
     for t in rec.get("tables", []):
         names += [t] + ([t.rsplit(".", 1)[1]] if "." in t else [])     # `a.b` is read back as b qualified by a
